@@ -593,7 +593,7 @@ def real_val(x):
 
 def ite(c, a, b):
     """symbolic if-then-else without forking"""
-    if isinstance(c, bool):
+    if isinstance(c, bool) or type(c).__name__ == "bool_":
         return a if c else b
     ta, tb, _ = _both(a, b)
     return _wrap(z3.If(_bterm(c), ta, tb))
